@@ -2842,3 +2842,69 @@ func ruleTrackedAfterPublication(w *World, r *Report, rule string) {
 		r.OK(rule, "godi#scope-tables:single", token.NoPos, false, "%d insertion(s) of scopes into tracking tables, none of a scope that was already published in another table", sites)
 	}
 }
+
+// ruleSingletonMissReportsDisposed: after a successful Build the singleton table
+// holds every singleton; the only thing that empties it is provider.Close. A
+// resolution that finds a singleton missing is therefore overlapping a Close and
+// must say so: every return that reports ErrSingletonNotInitialized is reached
+// only after the provider's disposed flag was tested (C13: an operation that
+// overlaps a Close completes normally or reports the disposed error).
+func ruleSingletonMissReportsDisposed(w *World, r *Report, rule string) {
+	ro := resolveRoles(w)
+	flag := w.Field(w.Godi, "provider", "disposed")
+	sentinel := w.Godi.Types.Scope().Lookup("ErrSingletonNotInitialized")
+	if ro.resolve == nil || flag == nil || sentinel == nil {
+		r.Undecided(rule, "resolve#Singleton:miss", token.NoPos, "resolve, provider.disposed or ErrSingletonNotInitialized not found")
+		return
+	}
+	n := 0
+	seen := map[*FuncInfo]bool{}
+	var fns []*FuncInfo
+	for _, root := range []*FuncInfo{ro.resolveTop, ro.resolve} {
+		if root == nil {
+			continue
+		}
+		for _, f := range w.Within(root, 2) {
+			if !seen[f] && !ro.creators[f.Obj] {
+				seen[f] = true
+				fns = append(fns, f)
+			}
+		}
+	}
+	for _, fi := range fns {
+		info := fi.Pkg.TypesInfo
+		ast.Inspect(fi.Decl.Body, func(x ast.Node) bool {
+			ret, ok := x.(*ast.ReturnStmt)
+			if !ok || !usesObj(info, ret, sentinel) {
+				return true
+			}
+			n++
+			guarded := false
+			conds, _ := controllingCondsInfo(info, fi.Decl.Body, ret.Pos())
+			for _, cd := range conds {
+				ast.Inspect(cd, func(y ast.Node) bool {
+					if sel, isSel := y.(*ast.SelectorExpr); isSel && fieldOf(info, sel) == flag {
+						guarded = true
+					}
+					if c, isC := y.(*ast.CallExpr); isC {
+						if t := w.Decls[callee(info, c)]; t != nil && t.Decl.Body != nil && len(t.Decl.Body.List) == 1 && usesObj(t.Pkg.TypesInfo, t.Decl.Body, flag) {
+							guarded = true // p.isDisposed()
+						}
+					}
+					return true
+				})
+			}
+			role := "resolve"
+			if fi != ro.resolve {
+				role = "resolve/" + fi.Name()
+			}
+			r.Check(guarded, rule, fmt.Sprintf("%s#Singleton:miss-reports-disposed/%d", role, n), ret.Pos(), true,
+				"the missing-singleton error is reported only after the provider was found not to be closed",
+				"a singleton that is missing from the table is reported as ErrSingletonNotInitialized without testing whether the provider has been closed: a resolution (or a scope creation whose initializers need a singleton) that overlaps provider.Close() - which empties the table - fails with 'service not found … singleton not initialized at build time' instead of the disposed error")
+			return true
+		})
+	}
+	if n == 0 {
+		r.OK(rule, "resolve#Singleton:miss-reports-disposed/none", ro.resolve.Decl.Pos(), false, "resolution never reports ErrSingletonNotInitialized")
+	}
+}
